@@ -1,6 +1,7 @@
 import SdJwt.Lemmas.Reject
 import SdJwt.Lemmas.Strip
 import SdJwt.Lemmas.RestoreAll
+import SdJwt.Lemmas.Complete
 /-!
 # C03 — the verifier never returns what the issuer did not sign, whatever the holder sends
 
@@ -14,10 +15,11 @@ list of presented strings, restoration fails or strips to `T.project S`, `S` = t
 presented strings — by definition of `project` that is the original with marked nodes outside `S`,
 and everything inside them, absent: never a member, value, element, multiplicity or order outside
 `plain T`, never a node whose own or an enclosing disclosure was not presented. `C03_order` shows
-the result depends on the set of presented strings only. The acceptance half ("a clean
-ancestor-closed list IS accepted") additionally needs the validating pre-pass to succeed on
-conformant input; that direction is covered by the correspondence run (list kind
-`clean-ancestor-closed`), see `C03_complete_partial`.
+the result depends on the set of presented strings only. `C03_complete` is the second half: a repetition-free
+list of the token's own disclosures is accepted — in ANY order, nested ones before or after their
+enclosing ones — and reveals exactly the claims whose own and enclosing disclosures are in the list
+(the validating pre-pass is shown to succeed on conformant input: every digest of the tree is
+visible in exactly one place).
 
 Also proved for ARBITRARY payloads and lists: a repeated disclosure is rejected (`C03_repeated_rejected`, D5);
 any undecodable or malformed string is rejected (`C03_malformed_rejected`); restoration never
@@ -147,14 +149,19 @@ theorem C03_order (env : Env) (T : MJ) (strs strs' : List String) (h : ∀ s, s 
   · rintro ⟨s, hs, e⟩; exact ⟨s, (h s).mp hs, e⟩
   · rintro ⟨s, hs, e⟩; exact ⟨s, (h s).mpr hs, e⟩
 
-/-- acceptance, the proved part: once the validating pre-pass has succeeded (which it does on
-conformant input, as the run confirms), the rounds themselves never fail on acceptable
-disclosures, whatever their order -/
-theorem C03_complete_partial (T : MJ) (L : List Disc) (inv : TreeInv T) (hok : ∀ d ∈ L, DOk T d)
-    (hdist : Distinct L) :
-    ∃ c ps, rounds L.length T.payload L [] = .ok (c, ps) ∧
-      removeAll c = T.project (fun h => L.any (fun d => d.digest = h)) :=
-  rounds_project T L inv hok hdist
+/-- **Completeness.** For a conformant tree and presented strings that all decode, have pairwise
+different hashes (a repetition-free list), are acceptable and are disclosures of marked nodes of
+the tree (own disclosures): the verifier's restoration ACCEPTS, whatever the order of the list, and
+strips to the projection onto the presented hashes. For an ancestor-closed list that projection
+reveals exactly the listed claims; `C03_order` shows it is the same for every permutation. -/
+theorem C03_complete (env : Env) (T : MJ) (strs : List String) (inv : TreeInv T)
+    (hdec : ∀ s ∈ strs, ∃ d, fromBase64 env s = .ok d)
+    (hnd : (strs.map env.hash).Nodup)
+    (hacc : ∀ s ∈ strs, ∀ d, fromBase64 env s = .ok d →
+      DOk T d ∧ ∃ x, (d.digest, x) ∈ T.hiddenE ∧ d.value = x.payload) :
+    ∃ c ps, restoreAll env T.payload strs = .ok (c, ps) ∧
+      removeAll c = T.project (fun h => strs.any (fun s => env.hash s = h)) :=
+  restoreAll_complete env T strs inv hdec hnd hacc
 
 /-- non-vacuity: a conformant tree with a nested mark and an array mark satisfies `TreeInv` -/
 example :
